@@ -21,6 +21,7 @@ package main
 import (
 	"bytes"
 	"encoding/hex"
+	"flag"
 	"fmt"
 	"os"
 	"runtime/pprof"
@@ -73,6 +74,31 @@ type tamper struct {
 	id    string
 	class string
 	raw   []byte
+	mut   func(m *txlab.Msg)
+}
+
+// tamperPairs composes every unordered pair of single-field tampers (thorough tier).
+func tamperPairs(b *txlab.Built, ts []tamper) []tamper {
+	root, err := txlab.Parse(b.Raw, txlab.TxSchema, "")
+	if err != nil {
+		return nil
+	}
+	var out []tamper
+	seen := map[string]bool{string(b.Raw): true}
+	for i := range ts {
+		for j := i + 1; j < len(ts); j++ {
+			c := root.Clone()
+			ts[i].mut(c)
+			ts[j].mut(c)
+			raw := c.Encode()
+			if seen[string(raw)] {
+				continue
+			}
+			seen[string(raw)] = true
+			out = append(out, tamper{id: "pair:" + ts[i].id + "&" + ts[j].id, class: "pair", raw: raw})
+		}
+	}
+	return out
 }
 
 func flipLast(b []byte) []byte {
@@ -109,7 +135,7 @@ func tampers(l *txlab.Lab, b *txlab.Built) []tamper {
 		mut(c)
 		raw := c.Encode()
 		if !bytes.Equal(raw, b.Raw) {
-			out = append(out, tamper{id: id, class: class, raw: raw})
+			out = append(out, tamper{id: id, class: class, raw: raw, mut: mut})
 		}
 	}
 	// every top-level field
@@ -265,6 +291,32 @@ func tampers(l *txlab.Lab, b *txlab.Built) []tamper {
 		add("sig.public_key="+n, "public-key-swap", sigSet(1, swap[n]))
 	}
 	add("sig.public_key^1", "public-key-swap", sigSet(1, flipLast(root.At([]uint64{3}).Get(1).Bytes)))
+	if base == "ms" {
+		// the multisig policy itself is part of the (unsigned) public key: lower the threshold, claim more signers
+		if mk, err := txlab.Parse(root.At([]uint64{3}).Get(1).Bytes, nil, ""); err == nil {
+			for _, th := range []uint64{0, 1, 3} {
+				c := mk.Clone()
+				var kept []*txlab.Field
+				for _, f := range c.Fields {
+					if f.Num != 3 {
+						kept = append(kept, f)
+					}
+				}
+				c.Fields = kept
+				if th != 0 {
+					c.Fields = append(c.Fields, &txlab.Field{Num: 3, WT: txlab.WTVarint, Varint: th})
+				}
+				add(fmt.Sprintf("sig.public_key.threshold=%d", th), "multisig-policy", sigSet(1, c.Encode()))
+			}
+			for _, bm := range []byte{0x07, 0x01, 0x04} {
+				c := mk.Clone()
+				if f := c.Get(2); f != nil && !bytes.Equal(f.Bytes, []byte{bm}) {
+					f.Bytes = []byte{bm}
+					add(fmt.Sprintf("sig.public_key.bitmap=%02x", bm), "multisig-policy", sigSet(1, c.Encode()))
+				}
+			}
+		}
+	}
 	return out
 }
 
@@ -275,10 +327,28 @@ type Job struct {
 	Kind     string        `json:"kind"`
 	Msg      string        `json:"msg"`
 	Thorough bool          `json:"thorough"`
-	Confirm  *txlab.CaseID `json:"confirm,omitempty"` // commit-confirm job
-	Want     string        `json:"want,omitempty"`    // expected diff digest of the probe
-	Seq      uint64        `json:"seq,omitempty"`     // sequence number the probe used (time / fee entropy)
-	Only     *txlab.CaseID `json:"only,omitempty"`    // replay of one case
+	Confirm  *txlab.CaseID `json:"confirm,omitempty"`  // commit-confirm job
+	Want     string        `json:"want,omitempty"`     // expected diff digest of the probe
+	Seq      uint64        `json:"seq,omitempty"`      // sequence number the probe used (time / fee entropy)
+	Only     *txlab.CaseID `json:"only,omitempty"`     // replay of one case
+	Deadline int64         `json:"deadline,omitempty"` // unix ms after which the worker stops and reports a partial result
+}
+
+var deadlineMs int64
+
+func late() bool { return deadlineMs > 0 && time.Now().UnixMilli() > deadlineMs }
+
+func jobDeadline(r *mc.Run, quick, thorough time.Duration) int64 {
+	b := quick
+	if !r.Quick() {
+		b = thorough
+	}
+	if f := flag.Lookup("budget"); f != nil {
+		if d, err := time.ParseDuration(f.Value.String()); err == nil && d > 0 {
+			b = d
+		}
+	}
+	return time.Now().Add(b).UnixMilli()
 }
 
 type Result struct {
@@ -296,6 +366,7 @@ type Result struct {
 	Samples       []any          `json:"samples,omitempty"`
 	CPUms         int64          `json:"cpu_ms"`
 	Err           string         `json:"err,omitempty"`
+	Partial       bool           `json:"partial,omitempty"`
 }
 
 var (
@@ -498,6 +569,9 @@ func modesFor(msg, role string) []string {
 	if role == "stranger" {
 		m = append(m, txlab.ModeForge)
 	}
+	if role == "owner" || role == "output" {
+		m = append(m, txlab.ModeWire)
+	}
 	if msg == fsm.MessageCertificateResultsName && (role == "stranger" || role == "nonproposer" || role == "otherval") {
 		m = append(m, txlab.ModeClaim)
 	}
@@ -510,6 +584,7 @@ func runJob(j Job) (res Result) {
 	start := time.Now()
 	res.Outcomes, res.Parts = map[string]int{}, map[string]int{}
 	defer func() { res.CPUms = time.Since(start).Milliseconds() }()
+	deadlineMs = j.Deadline
 	if j.Confirm != nil {
 		return runConfirm(j)
 	}
@@ -526,6 +601,10 @@ func runJob(j Job) (res Result) {
 					continue
 				}
 				seq++
+				if late() {
+					res.Partial = true
+					return
+				}
 				b := txlab.Build(lab, id, seq)
 				if b.NA != "" {
 					res.NA++
@@ -615,6 +694,10 @@ func runJob(j Job) (res Result) {
 					}
 					prime()
 					for i, t := range ts {
+						if late() {
+							res.Partial = true
+							break
+						}
 						o := one(se.path, se.cache, t.raw)
 						touts[i] = append(touts[i], o)
 						if o.err == "" {
@@ -660,6 +743,19 @@ func runJob(j Job) (res Result) {
 					res.Tampered++
 					res.Parts["tamper:"+ts[i].class]++
 					judge(&res, b, ts[i].raw, &ts[i], touts[i])
+				}
+				if j.Thorough && firstOfJob && j.Only == nil {
+					crypto.SignatureCache.Reset()
+					for _, t := range tamperPairs(b, ts) {
+						if late() {
+							res.Partial = true
+							break
+						}
+						t := t
+						res.Tampered++
+						res.Parts["tamper:pair"]++
+						judge(&res, b, t.raw, &t, []evalOut{one("single", "cold", t.raw)})
+					}
 				}
 			}
 		}
@@ -752,11 +848,13 @@ func main() {
 	var jobs []Job
 	// kind-major order: if the deadline cuts the run, every message type has been covered for the
 	// kinds that were reached
+	dl := jobDeadline(r, 85*time.Second, 25*time.Minute)
 	for _, k := range kinds {
 		for _, m := range txlab.MsgTypes {
-			jobs = append(jobs, Job{Kind: k, Msg: m, Thorough: !r.Quick()})
+			jobs = append(jobs, Job{Kind: k, Msg: m, Thorough: !r.Quick(), Deadline: dl})
 		}
 	}
+	resplit := resplitProbe(r)
 	pool := mc.NewProcPool(0)
 	results, crashed := mc.Map[Job, Result](pool, jobs, r.Expired)
 	tot := Result{Outcomes: map[string]int{}, Parts: map[string]int{}}
@@ -764,7 +862,7 @@ func main() {
 	authPerMsgKind := map[string]int{}
 	var confirm []Job
 	var cpu int64
-	done := 0
+	done, partial := 0, 0
 	for i, res := range results {
 		if crashed[i] {
 			r.Violation("C05:worker-crash:"+jobs[i].Msg, fmt.Sprintf("worker died twice on job %+v", jobs[i]), jobs[i])
@@ -776,6 +874,10 @@ func main() {
 		done++
 		if res.Err != "" {
 			r.Note("job %s/%s: %s", jobs[i].Msg, jobs[i].Kind, res.Err)
+			r.Exhaustive = false
+		}
+		if res.Partial {
+			partial++
 			r.Exhaustive = false
 		}
 		tot.Evaluations += res.Evaluations
@@ -806,15 +908,16 @@ func main() {
 				break
 			}
 			id := id
-			confirm = append(confirm, Job{Confirm: &id, Want: res.AuthDigests[n], Seq: res.AuthSeq[n]})
+			confirm = append(confirm, Job{Confirm: &id, Want: res.AuthDigests[n], Seq: res.AuthSeq[n], Deadline: dl})
 		}
 	}
-	if done < len(jobs) {
-		r.Note("grid stopped after %d of %d (message type, key kind) jobs (deadline)", done, len(jobs))
+	if done < len(jobs) || partial > 0 {
+		r.Expired()
+		r.Note("deadline: %d of %d (message type, key kind) jobs ran, %d of them only partially", done, len(jobs), partial)
 	}
 	// non-vacuity: every message type must have an authorized state-changing success for BLS keys
 	for _, m := range txlab.MsgTypes {
-		if done == len(jobs) && authPerMsgKind[m+"/"+txlab.KBLS] == 0 {
+		if done == len(jobs) && partial == 0 && authPerMsgKind[m+"/"+txlab.KBLS] == 0 {
 			r.Note("HARNESS GAP: no authorized successful %s transaction with BLS keys — the tamper stage never ran for it", m)
 			r.Exhaustive = false
 		}
@@ -868,10 +971,51 @@ func main() {
 		"commit_confirm_mismatch":  mismatched,
 		"jobs":                     len(jobs),
 		"jobs_done":                done,
+		"jobs_partial":             partial,
+		"cache_resplit_probes":     resplit,
 		"worker_cpu_s":             float64(cpu) / 1000,
 		"kinds":                    kinds,
 		"roles":                    roles,
 	})
+}
+
+// resplitProbe: the signature cache is keyed by public key, message and signature. A verified
+// ed25519 tuple (pk32, m, sig) must not make the secp256k1 tuple (pk32||m[0], m[1:], sig) — the
+// same bytes split elsewhere — count as verified (DESIGN F7). Pure crypto-level probe.
+func resplitProbe(r *mc.Run) (probes int) {
+	msg := make([]byte, 64)
+	for i := range msg {
+		msg[i] = byte(i + 1)
+	}
+	for i := 0; i < 4000 && probes < 3; i++ {
+		k := env.ED(i)
+		pub := k.PublicKey().Bytes()
+		if pub[0] != 2 && pub[0] != 3 {
+			continue
+		}
+		for b0 := 0; b0 < 256 && probes < 3; b0++ {
+			msg[0] = byte(b0)
+			pk33 := append(append([]byte{}, pub...), msg[0])
+			k2, err := crypto.NewPublicKeyFromBytes(pk33)
+			if err != nil {
+				continue
+			}
+			crypto.SignatureCache.Reset()
+			sig := k.Sign(msg)
+			if !k.PublicKey().VerifyBytes(msg, sig) {
+				continue
+			}
+			probes++
+			if k2.VerifyBytes(msg[1:], sig) {
+				r.Violation("C05:signature-cache:resplit-accepts-unverified-signature",
+					fmt.Sprintf("after verifying ed25519 (pk=%x, msg=%x) the secp256k1 key %x accepts the signature %x over msg[1:] (never signed)", pub, msg, pk33, sig),
+					map[string]any{"ed_key_index": i, "msg0": b0})
+			}
+			break
+		}
+	}
+	crypto.SignatureCache.Reset()
+	return
 }
 
 func doReplay(r *mc.Run) {
